@@ -76,6 +76,20 @@ example : (consumeStringResumable .none [0x22, 0x22] 0 true).2.2 ≠ .eof := by
   simp [consumeStringResumable, strLoop_cons]
   decide
 
+/-- the model's last branch of the string loop stands for exactly the `r < ' '` arm of the Go switch: the
+`default: panic("BUG: unhandled character")` arm cannot be reached -/
+theorem str_panic_arm_unreachable (c : UInt8) (r1 : Bytes)
+    (hn : noEscape c = false) (hq : (c == 0x22) = false)
+    (h2 : ¬ (Utf8.decodeRune (c :: r1)).2 > 1)
+    (h5 : ((Utf8.decodeRune (c :: r1)).1 == 0x5C) = false)
+    (hre : ((Utf8.decodeRune (c :: r1)).1 == Utf8.runeError) = false) :
+    (Utf8.decodeRune (c :: r1)).1 < 0x20 :=
+  strStep_default_unreachable c r1 hn hq h2 h5 hre
+
+/-- its hypotheses are met by the control character 0x01 -/
+example : noEscape 0x01 = false ∧ ((0x01 : UInt8) == 0x22) = false ∧ ¬ (Utf8.decodeRune [0x01]).2 > 1 ∧
+    ((Utf8.decodeRune [0x01]).1 == 0x5C) = false ∧ ((Utf8.decodeRune [0x01]).1 == Utf8.runeError) = false := by decide
+
 /-- `ws_resume`: blanks are consumed up to the end of the buffer and continue in the appended input, or stop
 at the first non-blank byte whatever is appended. -/
 theorem ws_resume (b e : Bytes) :
